@@ -297,6 +297,20 @@ def cursor_lhs(l):
     return None
 
 
+def restores_saved_state(call, fn):
+    """the argument of rewind_restore is a local that was initialised from rewind_save() (a whole earlier cursor of the same input)"""
+    from ..exc import walk, leaves
+    args = call.get('args') or []
+    if len(args) != 1: return False
+    a = args[0]
+    while a.get('k') == 'cast': a = a['e']
+    if a.get('k') != 'ref' or a.get('dk') != 'Var': return False
+    for d in [d for s2 in walk(fn.get('body'), lambda n: n.get('k') == 'Decl', []) for d in s2.get('decls', [])]:
+        if d.get('id') == a.get('d'):
+            return bool(walk(d.get('init'), lambda n: n.get('k') == 'call' and n.get('cn') == 'rewind_save', []))
+    return False
+
+
 def writers_of(path):
     """( {generic function name: [what is written]}, [callers of rewind_restore] ) for one extracted unit"""
     db = core.DB([path])
@@ -314,7 +328,7 @@ def writers_of(path):
                 if n.get('opc') in ('=', '+=', '-=', '++', '--') and n.get('args'):
                     w = cursor_lhs(n['args'][0])
                     if w: found[fn['q']].add(w + ' operator' + n['opc'])
-                if n.get('cn') == 'rewind_restore': callers.add(fn['q'])
+                if n.get('cn') == 'rewind_restore' and not restores_saved_state(n, fn): callers.add(fn['q'])
             for v in n.values(): walk(v, fn)
         elif isinstance(n, list):
             for v in n: walk(v, fn)
@@ -345,7 +359,7 @@ def analyse_writers(R, kinds, tier):
         kinds['restore-caller'] += 1
         ok = q.startswith(RESTORE_CALLERS)
         R.ob(ok=ok, key=('restore', q))
-        if not ok: R.violation('P-writers', q.replace(T, '')[:120], 'calls rewind_restore outside of a rewind guard', key=('restore', q))
+        if not ok: R.violation('P-writers', q.replace(T, '')[:120], 'calls rewind_restore with something that is not a cursor saved by rewind_save() (outside of a rewind guard)', key=('restore', q))
     missing = [q for q in WRITERS if q not in allw]
     if missing: R.broke('expected writers not seen (the table is out of date or the universe lost them): %s' % missing)
 
